@@ -28,7 +28,8 @@ MANIFEST = dict(
 
 ALL_STATUSES = "100-599,-1,0,99,600,999"
 BODIES = ["empty", "valid", "malformed", "wrongtype"]
-FAULTS = ["refused", "cancelled", "timeout", "timeout-client", "refused-real"]
+FAULTS = ["refused", "cancelled", "cancelled-ctx", "timeout", "timeout-client", "refused-real"]
+LOGGED = [("log0", True, 0), ("log2", True, 2), ("plain3", False, 3)]
 BOUNDARY = [-1, 0, 99, 100, 101, 199, 200, 201, 204, 226, 299, 300, 301, 302, 304, 307, 308, 399, 400, 401, 404, 418, 429, 499, 500, 501, 502, 503,
             504, 599, 600, 999]
 
@@ -56,14 +57,15 @@ RETRY_ALPHA = ["r503m", "r500e", "e", "r200v", "r200e", "r404v", "r302e", "r502w
 CLASS_OF = {"e": "empty", "v": "valid", "m": "malformed", "w": "wrongtype"}
 
 
-def make_pkg(pid, iface, statuses, faults=FAULTS, redirect=None, retry=None):
+def make_pkg(pid, iface, statuses, faults=FAULTS, redirect=None, retry=None, logged=LOGGED):
     """one package = one interface; sub-cases = method x status x body, method x fault, redirect legs, retry-chain legs"""
     spec = statuses if isinstance(statuses, str) else status_spec(statuses)
     files = restgen.render_package("cs", [iface], modpath="verifcases/c_" + pid)
     args = ["rest", "-type=" + iface["name"]]
     return {"id": pid, "iface": iface, "files": files, "runs": [{"args": args}],
-            "oracle": {".": restgen.c10_oracle("cs", iface, spec, BODIES, faults, redirect=redirect, retry=retry)},
-            "statuses": expand(spec), "faults": list(faults), "redirect": redirect, "retry": retry or {}, "cmd": "shoot " + " ".join(args)}
+            "oracle": {".": restgen.c10_oracle("cs", iface, spec, BODIES, faults, redirect=redirect, retry=retry, logged=logged)},
+            "statuses": expand(spec), "faults": list(faults), "redirect": redirect, "retry": retry or {}, "logged": list(logged or []),
+            "cmd": "shoot " + " ".join(args)}
 
 
 def script_sexp(spec):
@@ -103,7 +105,17 @@ def subcases(pkg):
                             "sexp": "(case %s rest-call (shape %s) (status %d) (body %s))" % (cid, shape, st, b),
                             "key": "%s|%s|%d|%s" % (shape, m["result"]["type"], st, b),
                             "cmd": json.dumps(dict(info, status=st, body=b))})
+        for tag, _lg, _k in pkg.get("logged", []):
+            for f in ("refused", "cancelled", "timeout"):
+                cid = "%s.%s.lf.%s.%s" % (pkg["id"], m["name"], tag, f)
+                out.append({"id": cid, "pkg": pkg["id"], "okey": "%s/lfault/%s-%s/" % (m["name"], tag, f), "shape": shape, "status": None, "body": None,
+                            "fault": f, "logged": tag,
+                            "sexp": "(case %s rest-call (shape %s) (fault %s))" % (cid, shape, f),
+                            "key": "%s|%s|lfault|%s|%s" % (shape, m["result"]["type"], tag, f),
+                            "cmd": json.dumps(dict(info, fault=f, logged=tag))})
         for f in pkg["faults"]:
+            if f == "cancelled-ctx" and not m.get("ctx"):
+                continue
             cid = "%s.%s.f.%s" % (pkg["id"], m["name"], f)
             lf = f.split("-")[0]
             out.append({"id": cid, "pkg": pkg["id"], "okey": "%s/fault/%s/" % (m["name"], f), "shape": shape, "status": None, "body": None, "fault": f,
@@ -210,6 +222,11 @@ def run_pkgs(ctx, pkgs):
         if m:
             m["model"]["gen"] = "ok"
             m["spec"]["gen"] = "ok"
+            if c.get("logged"):
+                # a transport failure is returned unchanged: nothing added to its text, its Timeout() preserved
+                for side in ("model", "spec"):
+                    m[side]["errtext"] = "true"
+                    m[side]["errtimeout"] = "true" if c["fault"] == "timeout" else "false"
             if c.get("redir"):
                 # the default policy follows the redirect: two round trips; the other two policies stop after one
                 m["model"]["nreq"] = c["nreq"]
